@@ -151,3 +151,14 @@ chk("C19",
     "oracle on the real classes incl. scalar/array/Series shapes and std types reaching net.pipe.",
     "Polynomial and Sutherland property classes and numpy.polyfit (pump regression at load time) are exercised, not modelled.",
     "Lean 4 proof incl. kernel-decided facts over source-generated rational tables; correspondence; library oracle", "8/C19")
+chk("C16",
+    "Lean theorems over flow words regenerated from create.py on every run (ordered add_new_component / check / row-write "
+    "primitives of all 28 create functions, calls to other create functions inlined): in every create function all checks "
+    "precede the first row write (decided), every function checks and writes; for every flow word with that shape a call whose "
+    "k-th check fails has written no row, whichever k (induction over the word) - hence no create function leaves a row behind a "
+    "rejected call; the full 'net unchanged' clause is false: kernel-checked witness that add_new_component precedes the checks "
+    "(known finding, replayed on the real code); every default stated in a create docstring equals the signature default "
+    "(decided over the generated table). Fault enumeration on the real functions: every create function x invalid-argument kind "
+    "x reference position x sector, complete net snapshots; bulk vs one-by-one; std type vs parameters.",
+    "The flow words flatten branches / loops in source order; value semantics of the written rows are covered by the enumeration.",
+    "Lean 4 proof over source-generated flow words (kernel-decided + induction); exhaustive fault enumeration on create_*", "8/C16")
